@@ -186,6 +186,13 @@ def text_cases():
                     expect={'p': {'keep': 0}, 'q': {'x': {'v': 2}, 'y': 3, 'u': 1}}))
     out.append(dict(text=True, kind='prev_word', stages=['{defaults: [{driver: pg}], db: {host: localhost}}', '{defaults: !append [{driver: sqlite}]}', '{db: !prev "defaults[1]"}'],
                     expect={'defaults': [{'driver': 'pg'}], 'db': {'host': 'localhost', 'driver': 'sqlite'}}))
+    # (d) elements keep their identity - their merge-control marks included - through an !append: a later stage that addresses them by index
+    # meets the same priorities as without the append
+    out.append(dict(text=True, kind='prev_word', stages=['{servers: [{host: alpha, port: !force 80}, !weak {host: beta, port: 81}], name: demo}', '{servers: !append [{host: gamma, port: 82}]}',
+                                                          '{servers: {0: {port: 8080}, 1: {port: 8081}}}'],
+                    expect={'servers': [{'host': 'alpha', 'port': 80}, {'host': 'beta', 'port': 8081}, {'host': 'gamma', 'port': 82}], 'name': 'demo'}))
+    out.append(dict(text=True, kind='prev_word', stages=['{opts: [!weak {mode: fast, level: 1}]}', '{opts: !append [a]}', '{opts: !append [b]}', '{opts: {0: !del {mode: slow}}}'],
+                    expect={'opts': [{'mode': 'slow'}, 'a', 'b']}))
     inc = [dict(files={'ext.yaml': 'plugins: !append [viz, net]\npaths: {search: !extend [/opt/x]}\n'},
                 outer=['{plugins: [core, io], paths: {search: [/usr/share/app]}}'], included=['ext.yaml'],
                 expect={'plugins': ['core', 'io', 'viz', 'net'], 'paths': {'search': ['/usr/share/app', '/opt/x']}}),
